@@ -246,21 +246,21 @@ type Fol struct {
 }
 
 type NodeSt struct {
-	ID                  uint64
-	Role                string // L F P C S
-	Term, Vote, Leader  uint64
-	Log                 LogSt
-	CI, LA, SI, ST      uint64
-	Cfg                 *Cfg
-	Com                 *Cfg
-	LC, LE              int64 // virtual ms since epoch
-	SV                  bool
-	Fol                 []Fol
-	PRep                []uint64
-	Reads               []string
-	CfgF                string
-	Recv                string
-	ET, LD              int64
+	ID                 uint64
+	Role               string // L F P C S
+	Term, Vote, Leader uint64
+	Log                LogSt
+	CI, LA, SI, ST     uint64
+	Cfg                *Cfg
+	Com                *Cfg
+	LC, LE             int64 // virtual ms since epoch
+	SV                 bool
+	Fol                []Fol
+	PRep               []uint64
+	Reads              []string
+	CfgF               string
+	Recv               string
+	ET, LD             int64
 }
 
 func b01(b bool) string {
@@ -475,14 +475,15 @@ func (d *Driver) Close() {
 
 // Finding is one disagreement or one oracle violation.
 type Finding struct {
-	Kind     string   `json:"kind"` // "mismatch" | "oracle"
-	Property string   `json:"property"`
-	Oracle   string   `json:"oracle,omitempty"`
-	Case     string   `json:"case"`
-	Impl     string   `json:"impl,omitempty"`
-	Model    string   `json:"model,omitempty"`
-	Diff     []string `json:"diff,omitempty"`
-	Detail   string   `json:"detail,omitempty"`
+	Kind      string            `json:"kind"` // "mismatch" | "oracle"
+	Property  string            `json:"property"`
+	Oracle    string            `json:"oracle,omitempty"`
+	Case      string            `json:"case"`
+	Impl      string            `json:"impl,omitempty"`
+	Model     string            `json:"model,omitempty"`
+	Diff      []string          `json:"diff,omitempty"`
+	Detail    string            `json:"detail,omitempty"`
+	Signature map[string]string `json:"signature,omitempty"`
 }
 
 // Report is what every engine run writes to $VERIF_OUT.
